@@ -2,6 +2,7 @@ package main
 
 import (
 	"fmt"
+	"go/constant"
 	"go/token"
 	"go/types"
 	"sort"
@@ -40,23 +41,102 @@ func fieldAtom(v ssa.Value) (field, c string, eq bool, ok bool) {
 	if !isS {
 		return "", "", false, false
 	}
-	ld, isLd := x.(*ssa.UnOp)
-	if !isLd {
-		return "", "", false, false
-	}
-	name := ""
-	switch a := ld.X.(type) {
-	case *ssa.FieldAddr:
-		if pt, ok := a.X.Type().Underlying().(*types.Pointer); ok {
-			if st, ok := pt.Elem().Underlying().(*types.Struct); ok {
-				name = st.Field(a.Field).Name()
-			}
-		}
-	}
+	name := loadedFieldName(x)
 	if name == "" {
 		return "", "", false, false
 	}
 	return name, s, bo.Op == token.EQL, true
+}
+
+// loadedFieldName: v is a struct field read (x.F through a pointer, or the F of a struct value): the name of F.
+func loadedFieldName(v ssa.Value) string {
+	switch a := v.(type) {
+	case *ssa.UnOp:
+		if fa, ok := a.X.(*ssa.FieldAddr); ok {
+			if pt, ok := fa.X.Type().Underlying().(*types.Pointer); ok {
+				if st, ok := pt.Elem().Underlying().(*types.Struct); ok {
+					return st.Field(fa.Field).Name()
+				}
+			}
+		}
+	case *ssa.Field:
+		if st, ok := a.X.Type().Underlying().(*types.Struct); ok {
+			return st.Field(a.Field).Name()
+		}
+	}
+	return ""
+}
+
+// evalBoolUnder evaluates a boolean value under the assignment of attribute-name fields: comparisons of a name field
+// with a constant, constants, negation, phis (resolved by the predecessor the walk came from) and calls of
+// repository predicates on the attribute (evaluated by walking the callee the same way).
+func evalBoolUnder(v ssa.Value, assign map[string]string, cameFrom *ssa.BasicBlock, depth int) (val, ok bool) {
+	if depth > 6 {
+		return false, false
+	}
+	switch x := v.(type) {
+	case *ssa.Const:
+		if x.Value != nil && x.Value.Kind() == constant.Bool {
+			return constant.BoolVal(x.Value), true
+		}
+	case *ssa.UnOp:
+		if x.Op == token.NOT {
+			r, ok := evalBoolUnder(x.X, assign, cameFrom, depth+1)
+			return !r, ok
+		}
+	case *ssa.BinOp:
+		if f, c, eq, ok := fieldAtom(x); ok {
+			return (assign[f] == c) == eq, true
+		}
+	case *ssa.Phi:
+		for i, p := range x.Block().Preds {
+			if p == cameFrom {
+				return evalBoolUnder(x.Edges[i], assign, nil, depth+1)
+			}
+		}
+	case *ssa.Call:
+		g := staticCallee(x)
+		if g == nil || !inRepo(g) || len(g.Blocks) == 0 || g.Signature.Results().Len() != 1 {
+			return false, false
+		}
+		// walk g
+		b := g.Blocks[0]
+		var prev *ssa.BasicBlock
+		for steps := 0; steps < 64; steps++ {
+			last := b.Instrs[len(b.Instrs)-1]
+			for _, in := range b.Instrs {
+				if c, isCall := in.(*ssa.Call); isCall {
+					if _, isB := c.Call.Value.(*ssa.Builtin); !isB && c != ssa.Instruction(x) {
+						if sc := staticCallee(c); sc == nil || !inRepo(sc) {
+							// calls without effect on the decision are tolerated only when their result is unused by the walk
+							_ = sc
+						}
+					}
+				}
+			}
+			switch t := last.(type) {
+			case *ssa.If:
+				r, ok := evalBoolUnder(t.Cond, assign, prev, depth+1)
+				if !ok {
+					return false, false
+				}
+				prev = b
+				if r {
+					b = b.Succs[0]
+				} else {
+					b = b.Succs[1]
+				}
+			case *ssa.Jump:
+				prev = b
+				b = b.Succs[0]
+			case *ssa.Return:
+				return evalBoolUnder(t.Results[0], assign, prev, depth+1)
+			default:
+				return false, false
+			}
+		}
+	}
+	return false, false
 }
 
 // loopPathResult is what one iteration of the attribute loop does under one assignment of field values.
@@ -83,21 +163,44 @@ func simulateAttrLoop(fn *ssa.Function, assign map[string]string) loopPathResult
 	}
 	header := body.Preds[0]
 	b := body
+	prev := header
 	lastStore := map[int]string{} // struct field index -> source field name (for locals reused across iterations)
+	resolve := func(v ssa.Value, at *ssa.BasicBlock) ssa.Value {
+		for i := 0; i < 4; i++ {
+			phi, ok := v.(*ssa.Phi)
+			if !ok {
+				return v
+			}
+			found := false
+			for j, p := range phi.Block().Preds {
+				if (phi.Block() == at && p == prev) || (phi.Block() != at && len(phi.Block().Preds) == 1) {
+					v, found = phi.Edges[j], true
+					break
+				}
+			}
+			if !found {
+				return v
+			}
+		}
+		return v
+	}
+	phiTaken := map[*ssa.Phi]ssa.Value{} // phis of blocks already passed on this path
 	for steps := 0; steps < 64; steps++ {
 		for _, in := range b.Instrs {
 			switch x := in.(type) {
+			case *ssa.Phi:
+				phiTaken[x] = resolve(x, b)
 			case *ssa.Store:
 				if fa, ok := x.Addr.(*ssa.FieldAddr); ok {
-					if ld, ok := x.Val.(*ssa.UnOp); ok {
-						if sfa, ok := ld.X.(*ssa.FieldAddr); ok {
-							if pt, ok := sfa.X.Type().Underlying().(*types.Pointer); ok {
-								if st, ok := pt.Elem().Underlying().(*types.Struct); ok {
-									lastStore[fa.Field] = st.Field(sfa.Field).Name()
-								}
-							}
+					val := x.Val
+					if phi, isPhi := val.(*ssa.Phi); isPhi {
+						if t, ok := phiTaken[phi]; ok {
+							val = t
 						}
-					} else if s, ok := constString(x.Val); ok {
+					}
+					if n := loadedFieldName(val); n != "" {
+						lastStore[fa.Field] = n
+					} else if s, ok := constString(val); ok {
 						lastStore[fa.Field] = "const:" + s
 					}
 				}
@@ -107,12 +210,12 @@ func simulateAttrLoop(fn *ssa.Function, assign map[string]string) loopPathResult
 					res.PrefixFrom = append(res.PrefixFrom, lastStore[0])
 				}
 			case *ssa.If:
-				f, c, eq, ok := fieldAtom(x.Cond)
+				truth, ok := evalBoolUnder(x.Cond, assign, prev, 0)
 				if !ok {
-					res.Undecided = "branch on a condition that is not a comparison of an attribute-name field with a constant"
+					res.Undecided = "branch on a condition that cannot be evaluated from the attribute-name fields (comparisons with constants, also inside predicates of the repository)"
 					return res
 				}
-				truth := (assign[f] == c) == eq
+				prev = b
 				if truth {
 					b = b.Succs[0]
 				} else {
@@ -120,6 +223,7 @@ func simulateAttrLoop(fn *ssa.Function, assign map[string]string) loopPathResult
 				}
 				goto next
 			case *ssa.Jump:
+				prev = b
 				b = b.Succs[0]
 				goto next
 			case *ssa.Return:
@@ -144,7 +248,7 @@ func checkC09(w *World) {
 	docRule(P, "R09.4", "F+D", "error discipline: the error of Decoder.Token() is returned unchanged with a nil node; in the store the only error mapped to a nil return is one for which errors.Is(err, io.EOF) holds, every other non-nil error is returned; CreateInMemory and xsel.ReadXml/ReadHtml/ReadJson return it to the caller.")
 	docRule(P, "R09.5", "F", "declared encodings: the xml.Decoder gets a CharsetReader that resolves the declared label with charset.NewReaderLabel (unknown labels are errors) and never falls back to content sniffing (charset.NewReader / DetermineEncoding).")
 
-	pull := w.method("parser", "xmlParser", "Pull")
+	pull := w.pullOf("ReadXml")
 	if pull == nil {
 		w.undecided(P, "R09.2", "XML pull adapter", 0, "parser.xmlParser.Pull not found")
 		return
@@ -174,7 +278,15 @@ func checkC09(w *World) {
 		w.undecided(P, "R09.1", "attribute partition", pull.Pos(), "namespace/attribute builders not found in the start-element arm")
 	} else {
 		consts := map[string]map[string]bool{}
-		for _, fn := range []*ssa.Function{nsBuilder, attrBuilder} {
+		var scan []*ssa.Function
+		for _, root := range []*ssa.Function{nsBuilder, attrBuilder} {
+			for g := range staticReach(root, func(x *ssa.Function) bool { return fnPkgKey(x) == "parser" }) {
+				if fnPkgKey(g) == "parser" {
+					scan = append(scan, g)
+				}
+			}
+		}
+		for _, fn := range scan {
 			allInstrs(fn, func(in ssa.Instruction) {
 				if bo, ok := in.(*ssa.BinOp); ok {
 					if f, c, _, ok := fieldAtom(bo); ok {
